@@ -113,33 +113,38 @@ inductive LexMode
   | code
   | str (delim : UInt8) (acc : Bytes)
 
-/-- `prev` is the byte before the head of `rest` in the expression (Go: `t.source[t.position-1]`),
-    `none` at position 0. `fuel` ≥ length of `rest` always suffices. -/
-def lexAux : Nat → LexMode → Option UInt8 → Bytes → List Token
+/-- `esc` is Go's `escapedAt(t.source, t.position)` for the head of `rest`: the byte is preceded by an ODD
+    number of consecutive backslashes (`false` at position 0). It obeys
+    `escapedAt (i+1) = (source[i] == '\\' && !escapedAt i)`; after a NAME, a NUMBER or the second byte of a
+    two-character operator (`=`, `&`) the previous byte is no backslash, hence `false`.
+    A quote opens or closes a literal iff it is not escaped: `'a\\'` ends at its last quote (escaped
+    backslash), `'a\'b'` does not end at the middle one. `fuel` ≥ length of `rest` always suffices. -/
+def lexAux : Nat → LexMode → Bool → Bytes → List Token
   | 0, _, _, _ => []
   | _, _, _, [] => []          -- an unterminated string literal is silently dropped, as in Go
-  | fuel+1, mode, prev, c :: r =>
-    let isQuote := (c == 34 || c == 39) && prev != some 92
+  | fuel+1, mode, esc, c :: r =>
+    let isQuote := (c == 34 || c == 39) && !esc
+    let esc' := c == 92 && !esc
     match mode with
     | .str d acc =>
       if isQuote && c == d then
-        tk STRING acc.reverse :: lexAux fuel .code (some c) r
+        tk STRING acc.reverse :: lexAux fuel .code esc' r
       else
-        lexAux fuel (.str d (c :: acc)) (some c) r
+        lexAux fuel (.str d (c :: acc)) esc' r
     | .code =>
-      if isQuote then lexAux fuel (.str c []) (some c) r
+      if isQuote then lexAux fuel (.str c []) esc' r
       else if isOperatorCh c then
         match r with
         | n :: r' =>
-          if fusesWith c n then tk OPERATOR [c, n] :: lexAux fuel .code (some n) r'
-          else tk OPERATOR [c] :: lexAux fuel .code (some c) r
+          if fusesWith c n then tk OPERATOR [c, n] :: lexAux fuel .code false r'
+          else tk OPERATOR [c] :: lexAux fuel .code esc' r
         | [] => [tk OPERATOR [c]]
-      else if isPunctCh c then tk PUNCT [c] :: lexAux fuel .code (some c) r
-      else if isWs c then lexAux fuel .code (some c) r
+      else if isPunctCh c then tk PUNCT [c] :: lexAux fuel .code esc' r
+      else if isWs c then lexAux fuel .code esc' r
       else if isIdentStart c then
         let more := r.takeWhile isIdentChar
         let rest := r.dropWhile isIdentChar
-        tk NAME (c :: more) :: lexAux fuel .code ((c :: more).getLast?) rest
+        tk NAME (c :: more) :: lexAux fuel .code false rest
       else if isDigit c then
         let ds := r.takeWhile isDigit
         let r1 := r.dropWhile isDigit
@@ -148,11 +153,11 @@ def lexAux : Nat → LexMode → Option UInt8 → Bytes → List Token
           let fs := r2.takeWhile isDigit
           let r3 := r2.dropWhile isDigit
           let lit := c :: ds ++ 46 :: fs
-          tk NUMBER lit :: lexAux fuel .code lit.getLast? r3
-        | _ => tk NUMBER (c :: ds) :: lexAux fuel .code ((c :: ds).getLast?) r1
-      else lexAux fuel .code (some c) r      -- unrecognised byte: skipped
+          tk NUMBER lit :: lexAux fuel .code false r3
+        | _ => tk NUMBER (c :: ds) :: lexAux fuel .code false r1
+      else lexAux fuel .code esc' r      -- unrecognised byte (a backslash among them): skipped
 
-def lexExpr (s : Bytes) : List Token := lexAux (s.length + 1) .code none s
+def lexExpr (s : Bytes) : List Token := lexAux (s.length + 1) .code false s
 
 /-! ## `tokenizeTemplatePath`, `processBlockTag` -/
 
